@@ -3,6 +3,7 @@ from . import shared as S
 from . import dumpside as D
 from . import roundtrip as R
 from . import helpers_rules as H
+from . import round3 as R3
 
 META = {
     'claim_added': "Also decided: sweeten/savorize hook symmetry (same own-definition test, same ancestor walk); default stripping agrees with loading (R05.7) and matches() compares text with the default itself, bool arms by polarity; yatiml leaves PyYAML's alias bookkeeping alone; the seasoning transforms are all-or-nothing (R15.2, sharing the C15 known findings). Round 3: the tag written for a type is accepted by that type's recogniser only (R05.11; string-like / Path objects referenced twice are a known finding), the YAML dump sites pass no emitter options (R12.1), recognition is a pure trial (R05.13).",
@@ -46,3 +47,4 @@ def run(ctx):
     H.r16_1_purity(ctx, 'R05.13', roots=['yatiml.recognizer:Recognizer.recognize'], what='recognition (a trial of one candidate leaves the node as it was for the next)')
     # an object referenced twice is dumped as anchor + alias: the cycle pre-check must let every such (acyclic) document through
     A.r18_1_cycles(ctx, 'R05.14')
+    R3.r10_8_each_class_once(ctx, 'R05.15')
